@@ -30,6 +30,9 @@ type Valuation struct {
 	// signedness of their Go type (two's complement), as the compiled code
 	// does; 64-bit unsigned values are carried as their bit pattern.
 	Typed bool
+	// RootStop, when set, ends Root/RootF at the first value it accepts (a
+	// value the rule has a snapshot of and does not want followed further).
+	RootStop func(v ssa.Value) bool
 
 	cur *wframe
 	// bind remembers, for every parameter of an entered callee, the argument
@@ -107,6 +110,9 @@ func (val *Valuation) rootIn(f *wframe, v ssa.Value) (ssa.Value, *wframe) {
 		v = Unwrap(v)
 		if f == nil {
 			return v, nil
+		}
+		if val.RootStop != nil && val.RootStop(v) {
+			return v, f
 		}
 		switch x := v.(type) {
 		case *ssa.Parameter:
